@@ -116,8 +116,13 @@ theorem hkc_rest_eq (k : KState) (hr : KRest k) (l' : Layout) (hl : tick k.layou
   have hcw : applyCapsWord ({ k with layout := l', overrideStates := k.overrideStates } : KState) l'.keycodes
       = (l'.keycodes, { k with layout := l', overrideStates := k.overrideStates }) := by
     unfold applyCapsWord; simp only [hr.caps]
+  -- [seq] sequence mode is off (`KRest.seqOff`): the hooks do nothing, the press loop is `pressNew`
+  have hoff : (releaseOld ({ k with layout := l', overrideStates := k.overrideStates } : KState) l'.keycodes false).seq.off = true := by
+    rw [releaseOld_seq]; exact hr.seqOff
+  have hh := seqReleasedHook_inactive _ l'.keycodes (off_inactive _ hoff)
+  have hp := pressLoop_off l'.keycodes l'.keycodes _ hoff
   unfold handleKeystateChanges
-  simp only [hl, applyUnmodEvent, hadj, hov, hr.ovrClean, eraseOverridden_nil, hcw, hkcCustom]
+  simp only [hl, applyUnmodEvent, hadj, hov, hr.ovrClean, eraseOverridden_nil, hcw, hh, hp, hkcCustom]
   rfl
 
 theorem tickStates_rest_ok (k : KState) (hr : KRest k) (l' : Layout)
@@ -128,12 +133,14 @@ theorem tickStates_rest_ok (k : KState) (hr : KRest k) (l' : Layout)
   rw [hk2] at hkc ⊢
   have e2 := handleScrolling_none ({ setL k l' with out := o, prevKeys := p, lastPressedKey := lp, curKeys := l'.keycodes } : KState) hr.scroll hr.hscroll
   have e3 := handleMoveMouse_none ({ setL k l' with out := o, prevKeys := p, lastPressedKey := lp, curKeys := l'.keycodes } : KState) hr.moveV hr.moveH
+  have e3s := tickSequenceState_inactive ({ setL k l' with out := o, prevKeys := p, lastPressedKey := lp, curKeys := l'.keycodes } : KState) (off_inactive _ hr.seqOff)
   have e4 := tickIdleTimeout_nil ({ setL k l' with out := o, prevKeys := p, lastPressedKey := lp, curKeys := l'.keycodes } : KState) hr.wfi
   have e5 := tickHeldVkeys_nil ({ setL k l' with out := o, lastPressedKey := lp, macroOnPressCancelDuration := k.macroOnPressCancelDuration - 1, prevKeys := l'.keycodes, curKeys := [] } : KState) hr.vk
   unfold tickStates
   simp only [hkc]
   rw [e2]; simp only []
   rw [e3]; simp only []
+  rw [e3s]; simp only []
   rw [e4]; simp only []
   exact e5
 
@@ -184,7 +191,7 @@ structure KLay (k : KState) : Prop where
 
 theorem KRest.setL {k : KState} (h : KRest k) (l : Layout) : KRest (setL k l) :=
   ⟨h.customs, h.noOvr, h.ovrClean, h.cur, h.unmod, h.unshift, h.caps, h.scroll, h.hscroll, h.moveV,
-    h.moveH, h.wfi, h.vk, h.mcd⟩
+    h.moveH, h.wfi, h.vk, h.mcd, h.seqOff⟩
 
 theorem KLay.of_equiv {k k' : KState} (h : KLay k) (he : AgeEquiv k k') : KLay k' := by
   obtain ⟨l', e, rfl⟩ := he
@@ -268,7 +275,8 @@ theorem writeRepeat_setL (k : KState) (l : Layout) (kc : KeyCode) :
   show (if k.ignoreMin ≤ kc ∧ kc ≤ k.ignoreMax then setL k l else (setL k l).emit (.down kc)) = _
   split <;> rfl
 
-theorem handleRepeat_rest_eq (k : KState) (hn : k.overrides.isEmpty = true) (code : Nat) :
+theorem handleRepeat_rest_eq (k : KState) (hn : k.overrides.isEmpty = true)
+    (hs : k.seq.st.active = false) (code : Nat) :
     handleRepeat k code =
       match k.layout.transOrder with
       | .error e => .error (.layout e)
@@ -277,13 +285,14 @@ theorem handleRepeat_rest_eq (k : KState) (hn : k.overrides.isEmpty = true) (cod
                | some kc => writeRepeat k kc
                | none => k) with curKeys := [] } := by
   unfold handleRepeat
+  simp only [hs, Bool.false_and, Bool.false_eq_true, if_false]
   rw [overrideKeys_empty k.overrides hn]
   rfl
 
 theorem handleRepeat_equiv (k0 : KState) (l2 : Layout) (hn : k0.overrides.isEmpty = true)
-    (e0 : AgeEq k0.layout l2) (code : Nat) :
+    (hs : k0.seq.st.active = false) (e0 : AgeEq k0.layout l2) (code : Nat) :
     KRel (handleRepeat k0 code) (handleRepeat (setL k0 l2) code) := by
-  rw [handleRepeat_rest_eq k0 hn, handleRepeat_rest_eq (setL k0 l2) hn]
+  rw [handleRepeat_rest_eq k0 hn hs, handleRepeat_rest_eq (setL k0 l2) hn hs]
   show KRel (match k0.layout.transOrder with | .error e => _ | .ok order => _)
     (match l2.transOrder with | .error e => _ | .ok order => _)
   rw [← e0.transOrder]
@@ -339,7 +348,7 @@ theorem handleInput_equiv {k k' : KState} (hk : KLay k) (he : AgeEquiv k k') (i 
       · simp only [g1, g2]; exact rfl
       · simp only [g1, g2]; exact ⟨t2, g3, rfl⟩
   | rep code =>
-    exact handleRepeat_equiv { k with ticksSinceIdle := 0 } l2 hk.rest.noOvr e code
+    exact handleRepeat_equiv { k with ticksSinceIdle := 0 } l2 hk.rest.noOvr (off_inactive _ hk.rest.seqOff) e code
 
 theorem handleInput_klay {k k' : KState} (hk : KLay k) (i : Input) (h : handleInputEvent k i = .ok k') :
     KLay k' := by
@@ -397,6 +406,6 @@ theorem canBlock_klay {k : KState} (hk : KLay k) (ms : Nat) : KLay (canBlockUpda
   rw [ht]
   exact ⟨⟨hk.rest.customs, hk.rest.noOvr, hk.rest.ovrClean, hk.rest.cur, hk.rest.unmod, hk.rest.unshift,
     hk.rest.caps, hk.rest.scroll, hk.rest.hscroll, hk.rest.moveV, hk.rest.moveH, hk.rest.wfi, hk.rest.vk,
-    hk.rest.mcd⟩, hk.cfg, hk.inert⟩
+    hk.rest.mcd, hk.rest.seqOff⟩, hk.cfg, hk.inert⟩
 
 end KVerif.C07
